@@ -18,11 +18,12 @@ OP_OWNER = {
     "sortadv": ["C03"],
     "ryu": ["C16"], "ryudec": ["C16"],
     "like": ["C18"], "likefilter": ["C18"],
+    "tosql": ["C19"], "sqlread": ["C19"], "sqlfault": ["C15"], "sqlreadfault": ["C15"],
     "csvraw": ["C12"], "csvread": ["C12"],
     "csvfault": ["C15"], "csvreadfault": ["C15"],
 }
 
-BASE = "filter+sort+slice+select+drop+copy+apply+fapply+rownums+eval+distinct+groupagg+groupframes+equals+rebuild+tocsv+tojson"
+BASE = "filter+sort+slice+select+drop+copy+apply+fapply+rownums+eval+distinct+groupagg+groupframes+equals+rebuild+tocsv+tojson+tosql"
 
 
 def mix(*ops, w=3):
@@ -80,12 +81,19 @@ PROPS = {
                          dict({"section": "csvread", "tag": "csvread-enum", "quick": 200, "thorough": 2000, "cover_ops": {"CV"}}, owns=lambda m: m["op"] == "csvread")],
             "rule": "cases = operations on frames with declared and derived enum columns (cardinalities 1,2,63..65,127..129,191..193,254..257,300; declared orders different from the alphabet) "
                     "through New, ReadCSV and ReadJSON; every mismatch in such a history counts for this property"},
+    "C19": {"lean": ["QF.Props.C19"],
+            "sections": [dict(hist("hist", ["tosql", "tosql", "sort", "filter", "apply"], quick=200), tag="hist-tosql", cover_ops=None, owns=lambda m: m["op"] == "tosql"),
+                         {"section": "sqlread", "quick": 1500, "thorough": 15000, "cover_ops": {"SR"}}],
+            "rule": "cases = ToSQL of derived frames against a recording database/sql driver (every statement text and argument list compared with the spec for all dialect options) and "
+                    "ReadSQL of scripted result sets (types, NULL placement, coercions, precision); distinct by transcript line"},
     "C18": {"lean": ["QF.Props.C18"],
             "sections": [{"section": "like", "quick": 1500, "thorough": 20000, "cover_ops": {"M", "ME"}}],
             "rule": "cases = (pattern, case flag, cells) run through the real NewMatcher/Matches/ToUpper and through Filter on a string column and an enum column with the same cells; "
                     "compared with the documented rule and the ToUpper mirror; unicode.ToUpper and regexp matching are oracle annotations from the Go standard library"},
     "C15": {"lean": ["QF.Props.C12"], "extra_ns": ["QF.Props.C12"],
             "sections": [dict(hist("hist", ["wfault"], quick=60, thorough=400), tag="hist-wfault", cover_ops=None, owns=lambda m: m["op"] == "wfault"),
+                         dict(hist("hist", ["tosql", "tosql", "sort"], quick=60, thorough=400), tag="hist-sqlfault", opt="sqlfaults=1," + mix("tosql", "tosql", "sort"), cover_ops=None, owns=lambda m: m["op"] == "sqlfault"),
+                         {"section": "sqlread", "tag": "sqlreadfaults", "opt": "faults=1", "quick": 300, "thorough": 3000, "cover_ops": {"SR"}},
                          {"section": "csvraw", "tag": "csvrawfaults", "opt": "faults=1", "quick": 60, "thorough": 600, "cover_ops": {"C"}},
                          {"section": "csvread", "tag": "csvreadfaults", "opt": "faults=1", "quick": 400, "thorough": 4000, "cover_ops": {"CV"}}],
             "rule": "cases = (document, schedule, failing call number); csvraw enumerates EVERY call number of the chosen schedule per document; distinct by transcript line"},
@@ -105,6 +113,9 @@ def _lt(text, technique, note=""):
 
 
 LEVEL_TEXT = {
+    "C19": _lt("scan_text: the Column.Scan state machine reproduces any sequence of texts and NULLs with leading NULLs back-filled. ToSQL against a recording driver: statement text and arguments per row compared with insertText/toSqlS for every dialect option; ReadSQL of scripted result sets compared with readSqlS.",
+               "Lean 4 proof (scan state machine) + differential correspondence with a recording database/sql driver",
+               "database/sql argument conversion and the driver contract are assumed."),
     "C17": _lt("bitset_spec for the 256-bit value set behind in/like/ilike on enums; histories over declared and derived enum columns at and around the cardinality limit and the word boundaries of the bit set are compared with the spec (declared order for <,<=,>,>= and Sort, strict rejection of undeclared values and constants, clean failure beyond 255 values, null distinct from every value).",
                "Lean 4 proof (bit set) + differential correspondence over enum-heavy histories and ReadCSV"),
     "C18": _lt("toUpper_spec: the custom ToUpper equals encode(map up s) for every string, case mapping and buffer size (unconditional after the RuneSelf repair). Matcher choice and matching of the real code are compared with the documented rule; string and enum columns must select the same rows.",
@@ -122,9 +133,9 @@ LEVEL_TEXT = {
     "C12": _lt("read_schedule_independent / any_two_schedules_agree: the mirror of the whole fastcsv reader returns the same rows, fields and error for every read schedule (lock-step simulation against the fully loaded buffer); qscan_content: an escaped field is read back as its content. The real reader and ReadCSV are compared exactly with the L0 mirror and with the RFC 4180 scanner / ReadCSV spec on generated documents, schedules and configurations.",
                "Lean 4 proof (simulation: any schedule = loaded buffer) + differential correspondence",
                "strconv parsing is a parameter (oracle computed by the harness from the standard library). Two recorded findings (CR inside quotes, trailing empty field at EOF) are excluded by name."),
-    "C15": _lt("Fault enumeration against the reader model: for every call number at which the underlying reader fails, the model decides whether that call is reached; if it is, the fastcsv reader must end in failure and ReadCSV must return Err (never an error-free partial frame). Writer and SQL faults: see evidence open_goals.",
+    "C15": _lt("Fault enumeration against the reader model: for every call number at which the underlying reader fails, the model decides whether that call is reached; if it is, the fastcsv reader must end in failure and ReadCSV must return Err (never an error-free partial frame). Writers: for every byte offset at which the io.Writer starts failing, success may only be reported if everything was accepted. SQL: a failing Exec or a failing row fetch must surface as an error.",
                "Lean 4 model of the reader with fault positions (theorems shared with C12) + exhaustive fault-position correspondence",
-               "Only the CSV input path is covered so far; ToCSV/ToJSON/ReadJSON/ReadSQL/ToSQL fault checks are open goals."),
+               "Covered: CSV reader faults at every call, ToCSV/ToJSON writer faults at every byte offset, ToSQL failing statement, ReadSQL failing row. ReadJSON reader faults are an open goal."),
     "C01": _lt("Kernel-checked theorems (frame_condition, history_persistent) that in the allocation/ownership model of the operations no history of operations can change an array that existed before; the real code is tied to the model by re-observing every earlier frame after every step of generated histories.",
                "Lean 4 proof (invariant over histories in a heap model) + differential correspondence",
                "The Go memory model and slice aliasing are represented only by the ownership discipline; that each operation obeys it is validated by T2, not proved from the Go source."),
